@@ -1268,6 +1268,9 @@ class DecoderSpecificInfo(Descriptor):
                     w.writebits(1, "aac_scalefactor_data_resilience_flag")
                     w.writebits(1, "aac_spectral_data_resilience_flag")
                 w.writebits(1, "extension_flag_3")
+        if w.bits is not None and (w.bits.len % 8) != 0:
+            # the configuration is byte aligned (parse skips these bits)
+            w.writebits(8 - (w.bits.len % 8), 'reserved', 0)
         w.done()
         if self.data is not None:
             w.write(None, "data")
